@@ -38,6 +38,7 @@ import (
 	cryptoapi "github.com/hyperledger/aries-framework-go/spi/crypto"
 	kmsapi "github.com/hyperledger/aries-framework-go/spi/kms"
 	"github.com/hyperledger/aries-framework-go/spi/secretlock"
+	"github.com/hyperledger/aries-framework-go/spi/storage"
 
 	"verifharness/hx"
 )
@@ -229,6 +230,14 @@ type world struct {
 	failAt, ncalls int
 	uri, obsN      int
 
+	// several long-lived working key managers over the same data (op "switch"), opened through different storage
+	// wrapper stacks: 0 = a fresh kms.NewAriesProviderWrapper per key manager, 1 = ONE wrapper object shared by every key
+	// manager that uses this stack, 2 = an application's own kms.Store adapter straight over the "kmsdb" store
+	insts  map[int]*localkms.LocalKMS
+	cur    int
+	stack  int
+	shared kmsapi.Store
+
 	idTab    []idInfo          // every id string seen, in order of first appearance
 	idModel  map[string]string // id string -> Gallina term
 	matAtom  map[string]int    // key material bytes -> atom
@@ -299,6 +308,7 @@ func newWorld(r *hx.Rng) *world {
 
 	w.crypto = c
 	w.kms = mustOpen(w, true)
+	w.insts = map[int]*localkms.LocalKMS{0: w.kms}
 
 	return w
 }
@@ -317,7 +327,22 @@ func openKMS(w *world, recorded bool, mk []byte) (*localkms.LocalKMS, error) {
 	)
 
 	if recorded {
-		st, err = compkms.NewAriesProviderWrapper(w.rec)
+		switch w.stack % 3 {
+		case 1:
+			if w.shared == nil {
+				w.shared, err = compkms.NewAriesProviderWrapper(w.rec)
+			}
+
+			st = w.shared
+		case 2:
+			var s storage.Store
+
+			if s, err = w.rec.OpenStore(compkms.AriesWrapperStoreName); err == nil {
+				st = &directStore{s}
+			}
+		default:
+			st, err = compkms.NewAriesProviderWrapper(w.rec)
+		}
 	} else {
 		st, err = compkms.NewAriesProviderWrapper(w.raw)
 	}
@@ -333,6 +358,24 @@ func openKMS(w *world, recorded bool, mk []byte) (*localkms.LocalKMS, error) {
 	}
 
 	return localkms.New(uri, &provider{store: st, lock: lock})
+}
+
+// directStore is a kms.Store an application could write itself over the same "kmsdb" data.
+type directStore struct{ s storage.Store }
+
+func (d *directStore) Put(id string, v []byte) error { return d.s.Put(id, v) }
+func (d *directStore) Delete(id string) error        { return d.s.Delete(id) }
+func (d *directStore) Get(id string) ([]byte, error) {
+	v, err := d.s.Get(id)
+	if err != nil {
+		if strings.Contains(err.Error(), storage.ErrDataNotFound.Error()) {
+			return nil, fmt.Errorf("no keyset %q: %w", id, compkms.ErrKeyNotFound)
+		}
+
+		return nil, err
+	}
+
+	return v, nil
 }
 
 func mustOpen(w *world, recorded bool) *localkms.LocalKMS {
@@ -409,6 +452,10 @@ type Op struct {
 	RotKT string `json:"rotkt,omitempty"`
 	// URI: reopen: number of the primary key URI the fresh key manager is opened with
 	URI int `json:"uri,omitempty"`
+	// Stack: reopen / switch (when the instance is opened by it): the storage wrapper stack (see world.stack)
+	Stack int `json:"stack,omitempty"`
+	// Inst: switch: the working key manager instance the caller goes on with (kept alive across other instances' calls)
+	Inst int `json:"inst,omitempty"`
 
 	seq int
 }
@@ -707,8 +754,19 @@ func (w *world) apply(pos int, op Op) Obs {
 		pub, _, err = w.kms.ExportPubKeyBytes(w.refID(op.Ref))
 		isPub = true
 	case "reopen":
-		w.uri = op.URI
+		w.uri, w.stack = op.URI, op.Stack
 		w.kms = mustOpen(w, true)
+		w.insts[w.cur] = w.kms
+	case "switch":
+		w.cur = op.Inst
+
+		if k, ok := w.insts[w.cur]; ok {
+			w.kms = k // the instance opened earlier, as it is
+		} else {
+			w.uri, w.stack = op.Inst, op.Stack
+			w.kms = mustOpen(w, true)
+			w.insts[w.cur] = w.kms
+		}
 	}
 
 	// interrupted: the process died, or a store call failed and the operation gave up with an error (an operation
@@ -768,7 +826,7 @@ func (w *world) apply(pos int, op Op) Obs {
 	switch {
 	case crashed:
 		obs.Out, obs.coqOut = "crashed", "OCrashed"
-	case op.Kind == "reopen":
+	case op.Kind == "reopen" || op.Kind == "switch":
 		obs.Out, obs.coqOut = "done", "ODone"
 	case err != nil:
 		obs.Out, obs.coqOut = "err", "OErr"
@@ -828,8 +886,10 @@ func (w *world) apply(pos int, op Op) Obs {
 
 	if op.Crash >= 0 && !op.Fault {
 		// the process died (or was restarted right after the call): a fresh key manager takes over (another URI)
+		// (every instance of the dead process is gone)
 		w.uri = (w.uri + 1) % 3
 		w.kms = mustOpen(w, true)
+		w.insts = map[int]*localkms.LocalKMS{w.cur: w.kms}
 	}
 
 	if obs.Calls == nil {
@@ -892,6 +952,8 @@ func (w *world) coqOp(op Op) string {
 		o = "KGet " + w.idModel[w.refIDAt(op)]
 	case "export":
 		o = "KExport " + w.idModel[w.refIDAt(op)]
+	case "switch":
+		o = fmt.Sprintf("KSwitch %d", op.Inst)
 	default:
 		o = fmt.Sprintf("KReopen %d", op.URI)
 	}
@@ -1127,6 +1189,10 @@ func runHistory(kind string, ops []Op, seed *hx.Rng, tr *hx.Trace) {
 
 		if op.FailAt > 0 {
 			rec.Dist = append(rec.Dist, fmt.Sprintf("failcall=%d", op.FailAt))
+		}
+
+		if op.Kind == "switch" || op.Kind == "reopen" {
+			rec.Dist = append(rec.Dist, fmt.Sprintf("stack=%d", op.Stack%3))
 		}
 	}
 
@@ -1576,7 +1642,8 @@ func alphabet(kts []string, full bool) []Op {
 		a = append(a, refsFor([]string{"export"}, crashes, full)...)
 	}
 
-	a = append(a, Op{Kind: "reopen", Crash: -1, Ref: -1, URI: 1})
+	a = append(a, Op{Kind: "reopen", Crash: -1, Ref: -1, URI: 1, Stack: 2})
+	a = append(a, Op{Kind: "switch", Crash: -1, Ref: -1, Inst: 1, Stack: 1}, Op{Kind: "switch", Crash: -1, Ref: -1, Inst: 0})
 
 	return a
 }
@@ -1622,6 +1689,8 @@ func issued(ops []Op) int {
 func randomHistory(r *hx.Rng, n int) []Op {
 	var ops []Op
 
+	multi := r.Intn(3) == 0
+
 	for len(ops) < n {
 		var o Op
 
@@ -1652,14 +1721,23 @@ func randomHistory(r *hx.Rng, n int) []Op {
 			o = Op{Kind: "get", Ref: r.Intn(issued(ops) + 1), Crash: -1}
 		case x < 92:
 			o = Op{Kind: "export", Ref: r.Intn(issued(ops) + 1), Crash: -1}
+		case x < 95:
+			o = Op{Kind: "reopen", Ref: -1, Crash: -1, URI: r.Intn(3), Stack: r.Intn(3)}
 		default:
-			o = Op{Kind: "reopen", Ref: -1, Crash: -1, URI: r.Intn(3)}
+			o = Op{Kind: "switch", Ref: -1, Crash: -1, Inst: r.Intn(4), Stack: r.Intn(3)}
 		}
 
-		if o.Kind != "reopen" && o.Kind != "get" && o.Kind != "export" && r.Intn(3) == 0 {
+		if multi && r.Intn(3) == 0 {
+			// a history served by several long-lived key managers: any call may be preceded by a change of instance
+			ops = append(ops, Op{Kind: "switch", Ref: -1, Crash: -1, Inst: r.Intn(4), Stack: r.Intn(3)})
+		}
+
+		plain := o.Kind == "reopen" || o.Kind == "switch"
+
+		if !plain && o.Kind != "get" && o.Kind != "export" && r.Intn(3) == 0 {
 			o.Crash = r.Intn(3)
 			o.Fault = r.Intn(3) == 0
-		} else if o.Kind != "reopen" && r.Intn(4) == 0 {
+		} else if !plain && r.Intn(4) == 0 {
 			o.FailAt = 1 + r.Intn(4)
 		}
 
@@ -1828,6 +1906,42 @@ func main() {
 				{Kind: "rotate", Ref: 2, Crash: -1, FailAt: f},
 				{Kind: "get", Ref: 2, Crash: -1},
 			}, next(), tr)
+		}
+	}
+
+	// several long-lived key managers over one store, each through another storage wrapper stack: what one creates /
+	// imports / rotates the others (opened BEFORE that) must find; a rotated id must be gone for all of them; an id
+	// re-used by an import after a rotation must give every instance the new key; with an interruption in between
+	for _, kt := range ktypes {
+		first := Op{Kind: "create", KT: kt.name, Ref: -1, Crash: -1}
+		if kt.imp != "" {
+			first = Op{Kind: "import", KT: kt.name, UID: 1, Key: 0, Ref: -1, Crash: -1}
+		}
+
+		for _, c := range []int{-1, 1} {
+			for _, flt := range []bool{true, false} {
+				if c < 0 && !flt {
+					continue
+				}
+
+				sw := func(i int) Op { return Op{Kind: "switch", Ref: -1, Crash: -1, Inst: i, Stack: i} }
+				ops := []Op{
+					sw(1), sw(2), sw(0), first, {Kind: "get", Ref: 0, Crash: -1},
+					sw(1), {Kind: "get", Ref: 0, Crash: -1}, {Kind: "export", Ref: 0, Crash: -1},
+					{Kind: "rotate", Ref: 0, Crash: c, Fault: flt}, {Kind: "rotate", Ref: 0, Crash: -1},
+					sw(0), {Kind: "get", Ref: 0, Crash: -1}, {Kind: "get", Ref: 1, Crash: -1},
+					sw(2), {Kind: "get", Ref: 0, Crash: -1}, {Kind: "rotate", Ref: 1, Crash: -1},
+				}
+
+				if kt.imp != "" {
+					ops = append(ops, sw(1), Op{Kind: "import", KT: kt.name, UID: 1, Key: 1, Ref: -1, Crash: -1},
+						sw(0), Op{Kind: "get", Ref: 3, Crash: -1}, Op{Kind: "export", Ref: 3, Crash: -1},
+						sw(2), Op{Kind: "get", Ref: 3, Crash: -1}, Op{Kind: "import", KT: kt.name, UID: 1, Key: 0, Ref: -1, Crash: -1})
+				}
+
+				ops = append(ops, sw(1), Op{Kind: "get", Ref: 2, Crash: -1}, sw(0), Op{Kind: "get", Ref: 2, Crash: -1})
+				runHistory("sweep-instances", ops, next(), tr)
+			}
 		}
 	}
 
